@@ -309,6 +309,11 @@ func main() {
 				for j := range s {
 					s[j] = byte(33 + rng.Intn(94))
 				}
+				// metadata is bytes, not text: one in four values carries a zero byte or a byte that is not valid UTF-8 in the
+				// middle (never at either end, where it would be indistinguishable from the padding)
+				if n >= 3 && rng.Intn(4) == 0 {
+					s[1+rng.Intn(n-2)] = []byte{0x00, 0xff, 0xc3, 0x80}[rng.Intn(4)]
+				}
 				padded := make([]byte, 32)
 				if rng.Intn(2) == 0 {
 					copy(padded, s) // right padded
